@@ -183,3 +183,96 @@ def longest_depths(sd):
         preds = list(sd.dag.predecessors(v))
         depth[v] = 0 if not preds else 1 + max(depth[p] for p in preds)
     return depth
+
+
+def check_cache(sd, net: Net, res, tag="cache"):
+    """C14 invariant: whatever candidates/seeds/sets a node holds (compute=False view) is correct for the node's
+    CURRENT successors: exact for ordinary nodes, sound and duplicate-free for skip nodes."""
+    from .adapter import vertex_set_states
+
+    ok = True
+    spaces = node_spaces(sd, net)
+    for i in sd.node_ids():
+        d = sd.node_data(i)
+        seeds, cands, sets = d["attractor_seeds"], d["attractor_candidates"], d["attractor_sets"]
+        if seeds is None and cands is None and sets is None:
+            continue
+        sp = spaces[i]
+        succ_spaces = [spaces[j] for j in sd.dag.successors(i)]
+        kind = "skip" if d["skipped"] else ("expanded" if d["expanded"] else "stub")
+        exp = node_attractors(net, sp, succ_spaces)
+        if kind != "skip":
+            if seeds is not None:
+                if not check_seeds_exact(sd, net, i, seeds, res, f"{tag}:{kind}:seeds", spaces):
+                    ok = False
+            if cands is not None:
+                cst = []
+                for c in cands:
+                    st_ = full_state(net, c)
+                    if st_ is None or not net.in_space(st_, sp):
+                        res.violate(f"{tag}:{kind}:candidate-not-a-state-of-node", node=i, cand=str(c), space=fmt_space(net, sp))
+                        ok = False
+                    else:
+                        cst.append(st_)
+                for a in exp:
+                    if not any(c in a for c in cst):
+                        res.violate(
+                            f"{tag}:{kind}:candidates-miss-attractor",
+                            node=i,
+                            space=fmt_space(net, sp),
+                            n_cands=len(cands),
+                            attractor=sorted(net.state_tuple(s) for s in a)[:3],
+                        )
+                        ok = False
+        else:
+            if seeds is not None:
+                seen = Counter()
+                for s in seeds:
+                    st_ = full_state(net, s)
+                    a = net.attractor_of_state(st_) if st_ is not None else None
+                    if a is None or not net.attr_in_space(a, sp):
+                        res.violate(f"{tag}:skip:seed-not-in-attractor-of-node", node=i, seed=str(s), space=fmt_space(net, sp))
+                        ok = False
+                        continue
+                    seen[a] += 1
+                    if any(net.attr_in_space(a, c) for c in succ_spaces):
+                        res.violate(f"{tag}:skip:seed-attractor-inside-successor", node=i, seed=str(s), space=fmt_space(net, sp))
+                        ok = False
+                if any(v > 1 for v in seen.values()):
+                    res.violate(f"{tag}:skip:two-seeds-one-attractor", node=i, space=fmt_space(net, sp))
+                    ok = False
+        if sets is not None:
+            try:
+                got = [frozenset(net.state_from_dict(dict(t)) for t in vertex_set_states(sd, vs)) for vs in sets]
+            except Exception as e:  # noqa
+                res.violate(f"{tag}:{kind}:sets-not-enumerable", node=i, error=str(e))
+                ok = False
+                continue
+            if seeds is not None:
+                if len(got) != len(seeds):
+                    res.violate(f"{tag}:{kind}:sets-seeds-length", node=i, n_sets=len(got), n_seeds=len(seeds))
+                    ok = False
+                else:
+                    for k, (g, s) in enumerate(zip(got, seeds)):
+                        st_ = full_state(net, s)
+                        a = net.attractor_of_state(st_) if st_ is not None else None
+                        if a is not None and g != a:
+                            res.violate(
+                                f"{tag}:{kind}:set-differs-from-attractor-of-seed",
+                                node=i,
+                                index=k,
+                                got_size=len(g),
+                                expected_size=len(a),
+                                space=fmt_space(net, sp),
+                            )
+                            ok = False
+            if kind != "skip":
+                if Counter(got) != Counter(exp):
+                    res.violate(f"{tag}:{kind}:sets-wrong", node=i, space=fmt_space(net, sp), got_sizes=sorted(len(g) for g in got), expected_sizes=sorted(len(a) for a in exp))
+                    ok = False
+            else:
+                for g in got:
+                    if g not in set(net.attractors()) or any(net.attr_in_space(g, c) for c in succ_spaces):
+                        res.violate(f"{tag}:skip:set-stale-or-not-attractor", node=i, space=fmt_space(net, sp))
+                        ok = False
+    return ok
